@@ -738,6 +738,22 @@ def violate(rng, which):
             cs = [c for c in d.clusters if c.proto == 0 and any(f.cert is not None for f in c.fronts)]
             if not cs: continue
             f = r.choice([f for f in r.choice(cs).fronts if f.cert is not None]); f.cert = -5
+        elif which == "certificate-without-key":
+            cs = [c for c in d.clusters if c.proto == 0 and c.fronts]
+            if not cs: continue
+            f = r.choice(r.choice(cs).fronts)
+            if f.cert is not None: f.key = False
+            else: f.cert = r.randrange(len(POOL)); f.key = False
+            f.hsts = -1
+        elif which == "key-without-certificate":
+            cs = [c for c in d.clusters if c.proto == 0 and any(f.cert is None for f in c.fronts)]
+            if not cs: continue
+            f = r.choice([f for f in r.choice(cs).fronts if f.cert is None]); f.key = True
+        elif which == "invalid-health-check":
+            if not d.clusters: continue
+            c = r.choice(d.clusters)
+            c.hc = r.choice([dict(uri="nope"), dict(uri=""), dict(uri="/ok", interval=0), dict(uri="/ok", timeout=0),
+                             dict(uri="/ok", healthy=0), dict(uri="/ok", unhealthy=0), dict(uri="status")])
         elif which == "malformed":
             d.malformed = True
             d.extra_toml = r.choice(['worker_count = "two"', "buffer_size = -1", "activate_listeners = 1", "[[listeners]]\nprotocol = \"http\"",
@@ -753,7 +769,8 @@ VIOLATIONS = ["unknown-listener-protocol", "unknown-cluster-protocol", "missing-
               "h2-small-buffer", "public-address-with-expect-proxy", "invalid-alpn", "disable-http11-with-http11-alpn",
               "hsts-on-http-listener", "hsts-without-enabled", "frontend-on-wrong-listener", "http-frontend-without-hostname",
               "tcp-frontend-with-hostname", "tcp-cluster-mixing-expect-proxy", "hsts-on-http-frontend", "duplicate-cluster-id",
-              "automatic-state-save-without-saved-state", "missing-certificate-file", "malformed"]
+              "automatic-state-save-without-saved-state", "missing-certificate-file", "malformed",
+              "certificate-without-key", "key-without-certificate", "invalid-health-check"]
 
 
 def gen_cases(rng, tier):
